@@ -1145,6 +1145,37 @@ impl<P: SizedPayload> St<P> {
                 viol::report(&["C14"], "E.eq", format!("slots {} and {} hold values {} and {} but == answered {}", i, j, vi, vj, r));
             }
         }
+        // pointer identity predicates: true exactly for handles to one allocation (also across handle kinds,
+        // through their borrows)
+        {
+            let same = self.slots[i].alloc == self.slots[j].alloc;
+            let mut preds: Vec<(&'static str, bool)> = vec![];
+            fn bor<P: SizedPayload>(h: &H<P>) -> Option<ArcBorrow<'_, P>> {
+                match h {
+                    H::Arc(a) => Some(a.borrow_arc()),
+                    H::Off(o) => Some(o.borrow_arc()),
+                    H::U1(u) => u.as_first(),
+                    H::Raw(p) => Some(unsafe { ArcBorrow::from_ptr(*p) }),
+                    _ => None,
+                }
+            }
+            match (&self.slots[i].h, &self.slots[j].h) {
+                (H::Arc(x), H::Arc(y)) => preds.push(("Arc::ptr_eq", lib!(Arc::ptr_eq(x, y)))),
+                (H::U1(x), H::U1(y)) => preds.push(("ArcUnion::ptr_eq", lib!(ArcUnion::ptr_eq(x, y)))),
+                (H::U2(x), H::U2(y)) => preds.push(("ArcUnion::ptr_eq", lib!(ArcUnion::ptr_eq(x, y)))),
+                (H::Dyn(x), H::Dyn(y)) => preds.push(("Arc<dyn>::ptr_eq", lib!(Arc::ptr_eq(x, y)))),
+                (H::Hs(x), H::Hs(y)) => preds.push(("Arc<HeaderSlice>::ptr_eq", lib!(Arc::ptr_eq(x, y)))),
+                _ => {}
+            }
+            if let (Some(x), Some(y)) = (bor(&self.slots[i].h), bor(&self.slots[j].h)) {
+                preds.push(("ArcBorrow::ptr_eq", lib!(ArcBorrow::ptr_eq(&x, &y))));
+            }
+            for (w, r) in preds {
+                if r != same {
+                    viol::report(PP, "P.ptr-eq", format!("{} on slots {} ({:?}, alloc #{}) and {} ({:?}, alloc #{}) answered {}", w, i, self.slots[i].h.kind(), self.slots[i].alloc, j, self.slots[j].h.kind(), self.slots[j].alloc, r));
+                }
+            }
+        }
         self.log(|| format!("compare/hash/format slots {} and {} (variant {}) -> {:?}", i, j, b, res));
     }
 
